@@ -445,7 +445,9 @@ pub fn run(tier: Tier, replay: Option<Value>) -> i32 {
             continue;
         };
         let base_ops = base_rep["storage_ops"].as_u64().unwrap_or(1000) as usize;
-        let budget = base_ops * 1000;
+        // 1000x the fault-free count, plus room for walks down the band numbers (a damaged
+        // tail makes conserve probe every lower band id: linear in the id, not a loop)
+        let budget = base_ops * 1000 + 30 * (raw_pre.bands.keys().max().copied().unwrap_or(0) as usize + 2);
         // what restoring each band reports before any damage (interrupted versions may report
         // entries that have no directory above them), with the output directory masked
         let base_errors: BTreeMap<u32, Vec<String>> = s
